@@ -125,6 +125,34 @@ def _block_alt(block, agg):
                 agg.violation(kind, dict(sig, part="a"), dict(case, context=["alt", list(block)]), f"{R.show(tree)} on {seq!r}: {detail}")
 
 
+LONG_LENGTHS = [200, 1023, 1024, 1025, 1100]  # find_all is quadratic on a run: 3000 only in the thorough tier
+
+
+def eval_long(kind, n):
+    """one long match (a run far beyond any enumerated length): it must be reported whole"""
+    from codelimit.common.gsm.matcher import find_all
+
+    out = []
+    if kind == "plus-a":
+        seq = ["b"] + ["a"] * n + ["b"]
+        got = [(m.start, m.end) for m in find_all(top_expr(("plus", ("a",))), seq)]
+        want = [(1, n + 1)]
+    elif kind == "a-star-b-c":
+        seq = ["a"] + ["b"] * n + ["c", "a", "c"]
+        got = [(m.start, m.end) for m in find_all(top_expr(("cat", ("a",), ("cat", ("star", ("b",)), ("c",)))), seq)]
+        want = [(0, n + 2), (n + 2, n + 4)]
+    else:
+        mk, prefix = hand_shapes()["name-groups"]
+        codes = ["op:+", "id", "p:("] + ["id", "op:+"] * (n // 2) + ["p:)", "p:{", "id", "p:(", "p:)"]
+        toks = [mk_token(c, i) for i, c in enumerate(codes)]
+        got = [(m.start, m.end) for m in find_all(mk(), toks)]
+        end = 3 + 2 * (n // 2) + 1
+        want = [(1, end), (end + 1, end + 4)]
+    if got != want:
+        out.append(("long-match-lost-or-cut", {"clause": "longest/covered", "shape": kind}, f"{kind} with a run of {n}: reported {got[:4]}, expected {want}"))
+    return out
+
+
 def run_pair(a_json, b_json, alpha, slen):
     """use pattern A through find_all / starts_with, then check pattern B completely (same process)"""
     from codelimit.common.gsm import matcher
@@ -221,6 +249,7 @@ def hand_shapes():
     from codelimit.common.token_matching.predicate.Name import Name
 
     return {
+        "groups-only": (lambda: [OneOrMore(Balanced("(", ")"))], None),
         "name-groups": (lambda: [Name(), OneOrMore(Balanced("(", ")"))], []),
         "def-name-groups": (lambda: [Keyword("def"), Name(), OneOrMore(Balanced("(", ")"))], [("req", "kw:def")]),
         "function?-name-groups": (lambda: [Optional(Keyword("function")), Name(), OneOrMore(Balanced("(", ")"))], [("opt", "kw:function")]),
@@ -228,6 +257,7 @@ def hand_shapes():
 
 
 HAND_ALPHABET = {
+    "groups-only": ["id", "p:(", "p:)", "op:+"],
     "name-groups": ["id", "p:(", "p:)", "p:{", "kw:if", "op:+"],
     "def-name-groups": ["id", "p:(", "p:)", "kw:def", "kw:if", "op:+"],
     "function?-name-groups": ["id", "p:(", "p:)", "p:{", "kw:function", "op:+"],
@@ -239,6 +269,22 @@ def ref_header_greedy(prefix, codes, s):
     group everything is accepted. returns (greedy end, success, longest-word end)"""
     i = s
     n = len(codes)
+    if prefix is None:  # no name at all: the match is one or more groups
+        depth = 0
+        seen_group = False
+        while i < n:
+            c = codes[i]
+            if c == "p:(":
+                depth += 1
+                seen_group = True
+            elif c == "p:)":
+                if depth == 0:
+                    break
+                depth -= 1
+            elif depth == 0:
+                break
+            i += 1
+        return i, seen_group, (i if seen_group else None)
     for mode, code in prefix:
         if i < n and codes[i] == code:
             i += 1
@@ -444,6 +490,8 @@ def _block_shapes(block, agg):
 
 
 def replay(case):
+    if case["part"] == "long":
+        return [{"kind": k, "sig": dict(s, part="long"), "detail": d} for k, s, d in eval_long(case["shape"], case["n"])]
     if case["part"] == "pair":
         from mc.checks.c06 import isolated
 
@@ -522,6 +570,10 @@ def run(ctx: core.Ctx):
     step = max(1, nalt // (ctx.workers * 4) + 1)
     for lo in range(0, nalt, step):
         blocks.append(("alt", ("alt", p_max, q_max, lo, min(nalt, lo + step), "ab", aslen)))
+    for shape in ("plus-a", "a-star-b-c", "header"):
+        for n in LONG_LENGTHS + ([] if ctx.quick else [3000]):
+            blocks.append(("long", (shape, n)))
+    ctx.bounds["long_runs"] = LONG_LENGTHS + ([] if ctx.quick else [3000])
     psize = ctx.pick(4, 4)
     npair = len(pair_trees(psize))
     ctx.bounds["pattern_pairs"] = {"max_size": psize, "trees": npair, "ordered_pairs": npair * (npair - 1)}
@@ -541,5 +593,13 @@ def _dispatch(block, agg):
         _block_alt(b, agg)
     elif kind == "pairs":
         _block_pairs(b, agg)
+    elif kind == "long":
+        shape, n = b
+        viol = eval_long(shape, n)
+        case = {"part": "long", "shape": shape, "n": n}
+        agg.case(case, True, "long", sample=False)
+        agg.transitions += n
+        for k, sig, d in viol:
+            agg.violation(k, dict(sig, part="long"), case, d)
     else:
         _block_shapes(b, agg)
